@@ -627,7 +627,13 @@ def run(rep, tier, seed):
         pr = lres[ci]["policies"][pi]
         rerrs = canon_rust_lerrs(pr["levels"][str(n)]["level_errors"])
         lvl_cmp += 1
-        if rerrs != merrs:
+        if rerrs != merrs and bool(rerrs) == bool(merrs):
+            # same accept/reject verdict of the level checker, different error KINDS / required levels:
+            # compared loosely (counted and sampled in the evidence, not a violation)
+            stats["kind_only_differences"] = stats.get("kind_only_differences", 0) + 1
+            stats.setdefault("kind_only_sample", {"policy": tgen.policy_text(sets[ci]["policies"][pi]), "n": n,
+                                                  "rust": sorted(rerrs), "model": sorted(merrs)})
+        elif rerrs != merrs:
             rep.violation({"property": PROP, "kind": "level checker: model and implementation differ",
                            "model_function": "Level.lv / level_errors", "rust_entry": "Validator::validate_with_level (LevelChecker)",
                            "theorems_losing_transfer": ["c16_monotone", "c16_slice_sound_partial"],
@@ -724,7 +730,7 @@ def run(rep, tier, seed):
     rep.assumptions = [
         "slice definition (not in /repo): DESIGN C16 — level 0 empty, level 1 = principal/action/resource/context uids, +1 hop per level; kept entities keep attrs, tags, full ancestor set",
         "requests and stores are conformant to the schema (generated by DataGen; not re-validated by the authorizer)",
-        "level errors compared as a set of kinds (+ required level), source locations ignored",
+        "level checker correspondence: accept/reject (no level error vs some level error) compared strictly per (policy, n); the set of error kinds (+ required level) compared loosely — a kind-only difference is counted in histograms.kind_only_differences, not reported; source locations ignored",
         "strict validation mode; static policies only",
     ]
 
